@@ -41,4 +41,33 @@ structure RecOk (r : DirRec) : Prop where
   len : r.extLen < 2 ^ 32
   flags : r.flags < 256
 
+/-! ### path tables -/
+
+/-- one path table record as a reader takes it (ECMA-119 9.4), `big` = type M table -/
+def parsePt (b : Bytes) (big : Bool) : Option (PtEntry × Nat) :=
+  match b with
+  | [] => none
+  | l :: _ =>
+    let n := l.toNat
+    let total := 8 + n + n % 2
+    if n = 0 ∨ b.length < total then none
+    else some (⟨if big then fromBE (slice b 2 4) else fromLE (slice b 2 4),
+                if big then fromBE (slice b 6 2) else fromLE (slice b 6 2), slice b 8 n⟩, total)
+
+/-- read a path table of `size` bytes (the size comes from the volume descriptor) -/
+def decodePtAux : Nat → Bytes → Bool → List PtEntry
+  | 0, _, _ => []
+  | fuel + 1, b, big =>
+    match parsePt b big with
+    | none => []
+    | some (e, n) => e :: decodePtAux fuel (b.drop n) big
+
+def decodePt (b : Bytes) (size : Nat) (big : Bool) : List PtEntry := decodePtAux (size + 1) (b.take size) big
+
+structure PtOk (e : PtEntry) : Prop where
+  ident : 1 ≤ e.ident.length ∧ e.ident.length ≤ 255
+  loc : e.loc < 2 ^ 32
+  parent : e.parent < 2 ^ 16
+
+
 end Ps3.Spec.IsoDir
